@@ -123,20 +123,23 @@ class RestartFamily:
                 continue
             if na == nb:
                 continue
-            what = []
             miss = na[0] - nb[0]
             extra = nb[0] - na[0]
-            if miss or extra:
-                kinds = sorted({f"{k[1]}:{'generated' if k[2] == '~' else 'static'}:{k[5]}" for k in list(miss) + list(extra)})
-                what.append('messages(' + ('missing' if miss else '') + ('+' if miss and extra else '') + ('extra' if extra else '') + ':' + '|'.join(kinds[:3]) + ')')
-            if na[1] != nb[1]:
-                ea = sorted(k[1:3] for k in na[1] if k[1] != 'start')
-                eb = sorted(k[1:3] for k in nb[1] if k[1] != 'start')
-                what.append('terminal-event(' + ('outputs' if ea == eb else f"{ea}->{eb}") + ')')
-            if na[2] != nb[2]:
-                d = list((na[2] - nb[2]).items())[:2] + list((nb[2] - na[2]).items())[:2]
-                kinds = sorted({f"{k[2]}:{k[3]}" for k, _ in d})
-                what.append('final-tasks(' + '|'.join(kinds[:3]) + ')')
+            cls = set()
+            for k in list(miss) + list(extra):
+                if k[2] == '~':
+                    cls.add('generated-node-messages')
+                else:
+                    same_key = [x for x in (list(miss) if k in extra else list(extra)) if x[:6] == k[:6]]
+                    cls.add(f"messages:{k[1]}:{k[5]}:{'content' if same_key else 'missing' if k in miss else 'extra'}")
+            if sorted(k[1:3] for k in na[1]) != sorted(k[1:3] for k in nb[1]):
+                cls = {'terminal-event-differs'}
+            elif na[1] != nb[1]:
+                cls.add('terminal-outputs')
+            if 'terminal-event-differs' not in cls:
+                for k in list((na[2] - nb[2]).keys()) + list((nb[2] - na[2]).keys()):
+                    cls.add('generated-node-tasks' if k[1] == '~' else f"final-task:{k[2]}:{k[3]}")
+            what = sorted(cls)
             detail = f"run with {'eviction' if m['store'] == 'mem' else 'restart'} at quiescent point {pts} differs from the uninterrupted run: missing messages {[k[1:6] for k in list(miss)[:3]]} extra {[k[1:6] for k in list(extra)[:3]]}; events A {sorted(k[1:3] for k in na[1])} B {sorted(k[1:3] for k in nb[1])}"
-            out.append(V('C12', 'divergence', f"{tag}:{';'.join(what)}"[:160], detail, scenario=b['id']))
+            out.append(V('C12', 'divergence', f"{'|'.join(what)[:120]}:{tag}", detail, scenario=b['id']))
         return out
